@@ -103,7 +103,6 @@ func VerifHarness_C10_O1() {
 
 var _ = peers.NewPeer
 
-
 // C10/O1b — successive changes inside one six-round window: a first accepted
 // join (outsider 6) committed at round-received rr0 is pending (effective at
 // rr0+6) when a second batch of receipts is processed at a symbolic
